@@ -239,6 +239,8 @@ func libTemplates(c *core.Ctx, in *inputs) []*request {
 	add("lib-eems", map[string]string{"tree": in.named, "align": in.anc})
 	add("lib-renameauto-short", map[string]string{"tree": in.tree})
 	add("lib-rename", map[string]string{"tree": in.tree, "map": in.mapfile})
+	add("lib-rename", map[string]string{"tree": in.tree, "map": in.chainmap})
+	add("lib-nexus", map[string]string{"tree": in.numeric}, "translate")
 	add("lib-renameauto", map[string]string{"tree": in.multi}, "tips")
 	add("lib-renameauto", map[string]string{"tree": in.named}, "internal")
 	add("lib-renameregexp", map[string]string{"tree": in.tree})
